@@ -67,7 +67,7 @@ class Check:
 
     def require(self, cond, rule, instance, message, where="", ok_detail=""):
         if cond:
-            self.ok(rule, instance, ok_detail or message, where)
+            self.ok(rule, instance, ok_detail or ("holds [the report on failure would read: %s]" % message), where)
         else:
             self.violate(rule, instance, message, where)
         return cond
@@ -189,7 +189,20 @@ class Check:
         return 0
 
 
-def run_goldens(pid, mod):
+def pick_goldens(mine, limit):
+    """At most `limit` goldens, chosen greedily so that as many distinct rules as possible keep a positive example."""
+    if limit is None or len(mine) <= limit:
+        return mine
+    chosen, covered, rest = [], set(), list(mine)
+    while rest and len(chosen) < limit:
+        rest.sort(key=lambda ne: (-len(set(ne[1]["rules"]) - covered), ne[1].get("changed_fns", 0), ne[0]))
+        n, e = rest.pop(0)
+        chosen.append((n, e))
+        covered |= set(e["rules"])
+    return sorted(chosen)
+
+
+def run_goldens(pid, mod, limit=None):
     """Evaluate the property's rules on the stored golden (mutated) programs; every golden must be reported."""
     import gzip
     gdir = os.path.join(VERIF, "selftest", "golden")
@@ -202,6 +215,7 @@ def run_goldens(pid, mod):
     mine = [(n, e) for n, e in sorted(index.items()) if e["property"] == pid]
     if not mine:
         return done, failed
+    mine = pick_goldens(mine, limit)
     with gzip.open(os.path.join(gdir, "base.facts.json.gz"), "rt") as f:
         base_text = f.read()
     for name, ent in mine:
